@@ -627,7 +627,25 @@ func poolElection(tier string) (p pool) {
 	for _, f := range []feat{syncF, pvF, asyncF} {
 		p.dd = append(p.dd, ddScn("vote-only-crash", 3, ids(3), f, scriptVoteOnlyCrash(), devK(tier), defaultFaults...))
 	}
+	for _, f := range []feat{syncF, pvcqF} {
+		p.dd = append(p.dd, ddScn("transfer-twice", 3, ids(3), f, scriptTransferTwice(), devK(tier), defaultFaults...),
+			confSc("transfer-to-removed", f, scriptTransferToRemoved(), devK(tier), defaultFaults...))
+	}
 	return
+}
+
+// scriptTransferTwice: a transfer to a lagging (cut off) node stays in progress; the same
+// request is repeated (ignored), a proposal is refused meanwhile, then a transfer to another
+// node replaces it and completes.
+func scriptTransferTwice() []Event {
+	return seq(camp(1), prop(1), isolate(3), prop(1), xfer(1, 3), xfer(1, 3), prop(1), xfer(1, 2), heal(), prop(2), prop(1))
+}
+
+// scriptTransferToRemoved: the transfer target is removed by a configuration change that
+// commits while the transfer is in progress (the change was proposed first; node 2's
+// acknowledgements are held back until the transfer has started).
+func scriptTransferToRemoved() []Event {
+	return seq(camp(1), prop(1), isolate(3), prop(1), holdFrom(2), conf(1, mRemove3), xfer(1, 3), flush(), prop(1), heal(), prop(1), camp(2), prop(2))
 }
 
 // scriptVoteOnlyCrash: a stale candidate and an up-to-date candidate campaign in the
@@ -773,6 +791,10 @@ func poolRead(tier string) (p pool) {
 		p.dd = append(p.dd, rc)
 		one := ddScn("read-singleton", 1, ids(1), f, scriptReadSingleton(), k+1, int(BRead), 1, int(BCrash), 1, int(BPropose), 1)
 		p.dd = append(p.dd, one)
+		// a learner reads through a leader that is the sole voter (answered without a heartbeat round)
+		ls := ddScn("read-learner-of-singleton", 2, ids(1), f, seq(camp(1), prop(1), read(2), prop(1), read(2), read(1), camp(1), read(2), prop(1), read(2)), k+1, int(BRead), 1, int(BCrash), 1, int(BDrop), 1, int(BDup), 1)
+		ls.Learners = []uint64{2}
+		p.dd = append(p.dd, ls)
 		p.dd = append(p.dd, ddScn("read-stale-acks", 5, ids(5), f, scriptReadStaleAcks(), k, int(BRead), 1, int(BDrop), 1, int(BDup), 1))
 		js := ddScn("read-joint-shrink", 3, ids(3), f, scriptReadJointShrink(), k, int(BRead), 1, int(BDrop), 1, int(BCampaign), 1, int(BDelay), 1)
 		js.ConfMenu = []ConfSpec{{Transition: pb.ConfChangeTransitionJointExplicit, Changes: "r2 r3"}, {}}
